@@ -5,10 +5,10 @@ import vlib
 def classify(case_line):
     # the driver sets the tag only when the failing case has exactly the shape of the finding: still accepted by
     # Parse and Validate, same evaluations, UID = hash of text, re-parsed text = text with its "!" runs collapsed
-    if "not-under-not:known-shape" in case_line.get("tags", []):
+    if "not-under-not:known-shape" in (case_line.get("tags") or []):
         return "not-under-not"
     # AcceptVisitor(PrefixVisitor): prefix + label name longer than the tokenizer's 512-byte limit, nothing else wrong
-    if "prefix:name-exceeds-512:known-shape" in case_line.get("tags", []):
+    if "prefix:name-exceeds-512:known-shape" in (case_line.get("tags") or []):
         return "prefix-label-too-long"
     return None
 
